@@ -108,3 +108,7 @@ var (
 type definitionPipelinesDef = definition.PipelinesDef
 
 type prunnerPipelineInfo = prunner.PipelineInfo
+
+// nilDur stands for "no time set" in dumps (times are durations relative to the virtual origin and
+// may be negative for jobs loaded from an earlier run)
+const nilDur = time.Duration(-1 << 63)
